@@ -1,11 +1,90 @@
 (* Properties/C16.v — pinned statements only. *)
 From Coq Require Import QArith.
 From Boreal Require Import Base.Prelude Spec.MathSpec Spec.Digest Spec.Strtol Spec.RangeSpec
-  Model.ModFuncs Model.HashMod Model.MathMod Model.StringMod Model.ModFuncsCase Proofs.ModFuncsProofs.
+  Model.ModFuncs Model.HashMod Model.MathMod Model.StringMod Model.ModFuncsCase
+  Proofs.ModFuncsProofs Proofs.ModFuncsFrag.
 
+(* ---- arguments: with i64 arguments the checked additions of get_args / offset_length_to_start_end never fail *)
 Theorem C16_args_no_overflow : forall o n,
-  (0 <= o <= 9223372036854775807)%Z -> (0 <= n <= 9223372036854775807)%Z ->
+  (0 <= o <= i64max)%Z -> (0 <= n <= i64max)%Z ->
   start_end o n = Some (Z.to_N o, Z.to_N o + Z.to_N n).
 Proof. exact start_end_total. Qed.
 
+(* ---- hash.X(offset, size) over a byte slice, for every streaming digest d *)
+Theorem C16_hash_range : forall d mem o n,
+  (o <= i64max)%Z -> (n <= i64max)%Z ->
+  hash_call d (Direct mem) [AInt o; AInt n] =
+    if (o <? 0)%Z || (n <? 0)%Z || (Z.of_N (nlen mem) <=? o)%Z then RUndef
+    else from_bytes d (firstn (N.to_nat (N.min (Z.to_N n) (nlen mem))) (skipn (Z.to_nat o) mem)).
+Proof. exact hash_range. Qed.
+
+Theorem C16_hash_literal_same : forall d mem m' o n bytes,
+  (o <= i64max)%Z -> (n <= i64max)%Z ->
+  clip_direct mem o n = Some bytes ->
+  hash_call d (Direct mem) [AInt o; AInt n] = hash_call d m' [AStr bytes].
+Proof. exact hash_literal_same. Qed.
+
+(* ---- Memory::on_range *)
+Theorem C16_on_range_no_panic : forall S (cb : S -> list N -> S) m start end_ s,
+  on_range cb m start end_ s <> OrPanic.
+Proof. exact on_range_no_panic. Qed.
+
+Theorem C16_on_range_pinned_refuted :
+  exists m start end_, on_range_pinned (fun (s : list N) d => s ++ d) m start end_ [] = OrPanic.
+Proof. exact on_range_pinned_refuted. Qed.
+
+(* a streaming callback sees, in one or several slices, exactly the bytes RangeSpec describes *)
+Theorem C16_on_range_fragmented : forall S (cb : S -> list N -> S),
+  (forall s a b, cb (cb s a) b = cb s (a ++ b)) -> (forall s, cb s [] = s) ->
+  forall rs start end_ s, regions_ok rs -> start <= end_ ->
+    on_range cb (Frag true rs) start end_ s = lift S cb s (spec_frag rs start (end_ - start)).
+Proof. exact on_range_frag. Qed.
+
+(* over adjacent, completely fetched regions those bytes are the clipped range of the concatenated data *)
+Theorem C16_fragmented_adjacent : forall rs base start n, adjacent base rs -> base <= start ->
+  spec_frag rs start n =
+    if nlen (flat rs) <=? start - base then None
+    else Some (takeN n (skipn (N.to_nat (start - base)) (flat rs))).
+Proof. exact spec_frag_adjacent. Qed.
+
+(* the digests the model runs with are streaming *)
+Theorem C16_digests_streaming :
+  (forall f, streaming (bytes_digest f)) /\ streaming checksum_d /\ streaming crc_d.
+Proof. exact (conj bytes_digest_streaming (conj checksum_streaming crc_streaming)). Qed.
+
+(* ---- cache: memoised = unmemoised for every call sequence *)
+Theorem C16_cache_consistent : forall d m calls, run_cached d m [] calls = map (hash_call d m) calls.
+Proof. exact cache_consistent. Qed.
+
+(* ---- checksum32 *)
+Theorem C16_checksum32 : forall l, from_bytes checksum_d l = RInt (Z.of_N (checksum32_ref l)).
+Proof. exact checksum32_correct. Qed.
+
+(* ---- non-vacuity *)
+Example C16_range_example :
+  hash_call checksum_d (Direct [1;2;3;4;5]) [AInt 3; AInt 100] = RInt 9.
+Proof. vm_compute. reflexivity. Qed.
+
+Example C16_adjacent_example :
+  adjacent 10 [{| rg_start := 10; rg_len := 2; rg_data := [1;2]; rg_fail := false |};
+               {| rg_start := 12; rg_len := 3; rg_data := [3;4;5]; rg_fail := false |}]
+  /\ on_range (fun (s : list N) d => s ++ d)
+       (Frag true [{| rg_start := 10; rg_len := 2; rg_data := [1;2]; rg_fail := false |};
+                   {| rg_start := 12; rg_len := 3; rg_data := [3;4;5]; rg_fail := false |}]) 11 14 [] = OrOk [2;3;4].
+Proof. vm_compute. repeat split. Qed.
+
+Example C16_cache_example :
+  run_cached md5_d (Direct [97;98;99]) [] [[AInt 0; AInt 3]; [AInt 0; AInt 2]; [AInt 0; AInt 3]]
+  = map (hash_call md5_d (Direct [97;98;99])) [[AInt 0; AInt 3]; [AInt 0; AInt 2]; [AInt 0; AInt 3]].
+Proof. vm_compute. reflexivity. Qed.
+
 Print Assumptions C16_args_no_overflow.
+Print Assumptions C16_hash_range.
+Print Assumptions C16_hash_literal_same.
+Print Assumptions C16_on_range_no_panic.
+Print Assumptions C16_on_range_pinned_refuted.
+Print Assumptions C16_on_range_fragmented.
+Print Assumptions C16_fragmented_adjacent.
+Print Assumptions C16_digests_streaming.
+Print Assumptions C16_cache_consistent.
+Print Assumptions C16_checksum32.
